@@ -98,6 +98,14 @@ Closed(p, prog, reach) ==
   /\ \A s \in reach : prog[s[1]].kind \in {"jump", "cond", "call", "ind"} /\ s[2] # Exit => prog[s[2]].kind = "fall"   \* no branch in a delay slot
   /\ \A m \in AMan(p) : prog[m[1]].kind = "ind"
 
+\* instruction classes falcon's MIPS lifter is known to support (the classes C02 judges; `not` / `neg` aliases -
+\* nor / sub with $zero - are refused by the lifter and excluded)
+SupportedMn == {"addu", "subu", "and", "or", "xor", "nor", "slt", "sltu", "movz", "movn", "sll", "srl", "sra", "sllv", "srlv",
+                "srav", "addiu", "andi", "ori", "xori", "lui", "slti", "sltiu", "lw", "sw", "lb", "lbu", "sb", "lh", "lhu", "sh",
+                "mult", "multu", "mfhi", "mflo", "mthi", "mtlo", "mul", "beq", "bne", "blez", "bgtz", "bltz", "bgez", "j", "jal", "jr"}
+Supported(p, reach) ==
+  \A a \in DInstr(reach) : LET d == DecAt(p, a \div 4) IN d.mn \in SupportedMn /\ (d.mn = "nor" => d.rt # 0)
+
 \* ---- the recovered function as Recover.tla sees it -------------------------------------------
 IsPseudo(a8) == a8[1] % 4 # 0
 AOff(p, a8)  == IF a8[5] = 0 /\ a8[6] = 0 /\ a8[7] = 0 /\ a8[8] = 0 THEN OffOf(p, <<a8[1], a8[2], a8[3], a8[4]>>) ELSE 2000000
@@ -224,7 +232,13 @@ V(k, key, why, expected) == [k |-> k, key |-> key, why |-> why, expected |-> exp
 BeginVerdict(e) ==
   IF ~BeginShape(e) THEN V("reject", "structure:malformed", "malformed event", <<>>)
   ELSE IF "ok" \notin DOMAIN e.lift THEN
-       V("lifterr", IF "panic" \in DOMAIN e.lift THEN "structure:liftpanic" ELSE "structure:lifterr", "", <<>>)
+       \* a closed program made of instructions the lifter supports must be recovered: Err / panic is a rejection
+       LET prog == AProg(e)  reach == AReachOf(e, prog) IN
+       IF Closed(e, prog, reach) /\ Supported(e, reach)
+       THEN V("reject", "structure:reject", "structure",
+              [kind |-> "structure", arch |-> e.arch, diff |-> <<"lift-error">>, tags |-> ProgTags(e),
+               detail |-> [lift |-> e.lift]])
+       ELSE V("lifterr", IF "panic" \in DOMAIN e.lift THEN "structure:liftpanic" ELSE "structure:lifterr", "", <<>>)
   ELSE IF ~FunShape(e) THEN V("reject", "structure:malformed", "malformed event", <<>>)
   ELSE LET prog == AProg(e)  reach == AReachOf(e, prog) IN
        IF ~Closed(e, prog, reach) THEN V("unspec", "structure:unspec", "program is not closed / uses instructions outside the module", <<>>)
